@@ -63,6 +63,9 @@ CONFIGS = {
   "cond4o": dict(np=4, prio=[0, 0, 0, 0], auto=[1, 1, 1, 1], nres=1, poolcap=1, maxlen=3, maxtime=4,
                alphabet=[I("hold", 1), I("cwait", 2), I("prio", 3, 1), I("prio", 1, 1), I("intr", 1, 9, 0), I("csig")],
                roles=[["hold", "cwait"], ["hold", "cwait"], ["hold", "cwait"], ["hold", "prio", "intr", "csig"]], replay_quick=5000),
+  # subscribe / unsubscribe: is a release forwarded exactly while the condition is registered?
+  "cond2u": dict(np=2, prio=[0, 0], auto=[1, 1], nres=1, poolcap=1, maxlen=5, maxtime=4,
+               alphabet=[I("hold", 1), I("cwait", 2), I("csub", 0), I("cunsub", 0), I("acq", 1), I("rel", 1)]),
   "rec2p": dict(np=2, prio=[0, 0], auto=[1, 1], nres=1, poolcap=2, maxlen=4, maxtime=5,
                alphabet=[I("hold", 1), I("rec", 3, 1), I("rec", 3, 0), I("pacq", 1), I("pacq", 2), I("prel", 1), I("tadd", 1, -5)] + both("intr", -2, 5)),
   "rec2pq": dict(np=2, prio=[0, 0], auto=[1, 1], nres=1, poolcap=2, maxlen=4, maxtime=4,
@@ -94,7 +97,7 @@ FOR_PROPERTY = {
   "C04": (["wait2", "wev2"], ["wait2r", "wev2s", "lost2", "end2"]),
   "C11": (["buf2"], ["buf3"]),
   "C12": (["queue2"], ["queue3"]),
-  "C13": (["cond2", "cond3s"], ["cond3"]),
+  "C13": (["cond2", "cond3s", "cond2u"], ["cond3"]),
   "C14": (["rec2q", "rec2pq"], ["rec2", "rec2p", "rec2b"]),
   "C05": (["mutex2"], ["mutex2p", "mutex3", "lost2"]),
   "C06": (["order3", "cond4o"], ["order3e", "pool3"]),
